@@ -192,6 +192,21 @@ ATTR_TAG = {
     "Cryptographic Parameters": CRYPTOGRAPHIC_PARAMETERS,
 }
 ATTR_NAME = {v: k for k, v in ATTR_TAG.items()}
+# reading direction only: every attribute tag a server answer may carry (KMIP 2.0 attribute
+# references), so that the expectation names what the specification names
+ATTR_NAME.update({
+    CERTIFICATE_TYPE: "Certificate Type", 0x4200AD: "Certificate Length",
+    0x4200AE: "Digital Signature Algorithm", 0x420034: "Digest", LEASE_TIME: "Lease Time",
+    0x42004A: "Link", 0x420022: "Contact Information", 0x420048: "Last Change Date",
+    0x420033: "Destroy Date", 0x420020: "Compromise Date",
+    COMPROMISE_OCCURRENCE_DATE: "Compromise Occurrence Date", 0x420005: "Archive Date",
+    0x420095: "Usage Limits", 0x420081: "Revocation Reason", 0x4200A8: "Fresh",
+    0x4200BC: "Original Creation Date", 0x4200BB: "Key Value Present",
+    0x4200FC: "Description", 0x4200FD: "Comment", 0x420121: "Always Sensitive",
+    0x420122: "Extractable", 0x420123: "Never Extractable",
+    0x420026: "Cryptographic Domain Parameters", 0x4200B1: "X.509 Certificate Identifier",
+    0x4200B2: "X.509 Certificate Subject", 0x4200B3: "X.509 Certificate Issuer",
+})
 
 # how an attribute value is encoded (item type of the value)
 ATTR_KIND = {
